@@ -8,4 +8,4 @@ Extraction "../ocaml/timing/model.ml"
   Qred rnd_he div_ok calc_duration set_block_duration block_duration check_timing check_ok
   blocks_column write_assert_ok seq_duration total_duration adc_times rf_times wave_pieces starts
   tr_start begin_block end_block adc_times_tr rf_times_tr wave_pieces_tr event_count
-  decode_rf_tlast decode_rf_shape_dur reread_block.
+  decode_rf_tlast decode_rf_shape_dur reread_block tl_run tl_duration tl_sum.
